@@ -2,7 +2,7 @@ PROPERTY = "C01"
 LEVEL = "proof"
 # Props.C01: the property theorems; Lemmas.CharsLink / Lemmas.LexerMask: the link theorems that tie the model to
 # the regenerated tables and constants (audited together so that a changed table shows up as a failed obligation)
-LEAN_MODULES = ["CifModel.Props.C01", "CifModel.Lemmas.CharsLink", "CifModel.Lemmas.LexerMask"]
+LEAN_MODULES = ["CifModel.Props.C01", "CifModel.Props.C01parse", "CifModel.Lemmas.CharsLink", "CifModel.Lemmas.LexerMask"]
 REQUIRED = [
     "CifModel.C01_lex_value", "CifModel.C01_lex_value_loop", "CifModel.C01_lex_value_after_ws", "CifModel.C01_nextValue", "CifModel.C01_lex_key",
     "CifModel.C01_lex_name", "CifModel.C01_lex_bracket", "CifModel.C01_lex_keyword",
@@ -11,6 +11,9 @@ REQUIRED = [
     "CifModel.Model.Chars.classV2_link", "CifModel.Model.Chars.classV1_link", "CifModel.Model.Chars.classHigh_link",
     "CifModel.Model.Chars.meta_link", "CifModel.Model.Chars.tableLength_link", "CifModel.Model.Chars.Cls.code_injective",
     "CifModel.Model.Chars.mask_link", "CifModel.Model.Lexer.consts_link",
+    # integrated layer (Props/C01parse.lean)
+    "CifModel.C01_bare_unk_iff", "CifModel.C01_quoted_is_char", "CifModel.C01_text_is_char", "CifModel.C01_cif1_brackets_quoted",
+    "CifModel.C01_cif2_brackets_invalid", "CifModel.C01_error_free_policy_independent", "CifModel.C01_cstr_id",
 ]
 GEN = ["CharClass", "ErrCodes"]
 FAMILIES = ["lex", "parsedoc"]
@@ -36,8 +39,13 @@ ASSUMPTIONS = [
     "INIT_V2_SCANNER(s, NULL, NULL)",
 ]
 PARTIAL = [
-    "C01 is claimed for its LEXICAL LAYER only: C01_structure / C01_parse_render (productions, decode_text, value coercion, "
-    "storage) belong to the integrated-parser group and are not part of this check yet",
+    "lexical layer: proved (Props/C01.lean).  Integrated layer (Props/C01parse.lean): proved are the value-construction theorems "
+    "C01_bare_unk_iff ('?' / '.' read as unknown / not-applicable exactly when unquoted), C01_quoted_is_char / C01_text_is_char, "
+    "C01_cif1_brackets_quoted / C01_cif2_brackets_invalid, and C01_error_free_policy_independent; C01_structure and C01_parse_render "
+    "(for every document and layout the productions build denote(d) and report nothing) are NOT proved — the statement is kept as "
+    "C01_parse_render_full (def … : Prop), instances incl. the three combinations named in the property's rationale are evaluated by "
+    "the kernel, and the quantifier over documents x layouts is covered by the `parsedoc` correspondence family (grammar-directed "
+    "documents x random layouts through the real parser, oracle: no callback, dump = denote(doc) computed in Python).",
 ]
 LEVEL_TEXT = ("Proof (partial: lexical layer). Lean theorems about an executable model of next_token and the scan_* functions: "
               "every admissible presentation of every string is read back as one token with exactly that text, consuming "
